@@ -12,14 +12,22 @@ import (
 // share no memory. No ygot routine is involved except the generated To_<Union> constructors (wrapper
 // unions only) and the generated ordered-map Append.
 func Build(n *Node) ygot.GoStruct {
-	v := buildStruct(n)
+	v := buildStruct(n, nil)
+	return v.Interface().(ygot.GoStruct)
+}
+
+// BuildShared is Build for a caller who reuses values: scalar leaves of one Go pointer type that hold
+// equal values point to ONE variable (as in `s := ygot.String("x"); a.X = s; b.Y = s`). The tree holds
+// the same data as Build(n); writing one leaf through the library must still not change the others.
+func BuildShared(n *Node) ygot.GoStruct {
+	v := buildStruct(n, map[string]reflect.Value{})
 	return v.Interface().(ygot.GoStruct)
 }
 
 // BuildOpts tunes Build for fault injection.
 type BuildOpts struct{}
 
-func buildStruct(n *Node) reflect.Value {
+func buildStruct(n *Node, shared map[string]reflect.Value) reflect.Value {
 	si := n.SI
 	pv := reflect.New(si.T)
 	sv := pv.Elem()
@@ -28,7 +36,16 @@ func buildStruct(n *Node) reflect.Value {
 		switch f.Kind {
 		case FLeaf:
 			if v, ok := n.Leaf[f.Name]; ok {
-				fv.Set(GoValue(si.V, f, fv.Type(), v, false))
+				gv := GoValue(si.V, f, fv.Type(), v, false)
+				if shared != nil && gv.Kind() == reflect.Ptr && !gv.IsNil() && gv.Type().Elem().Kind() != reflect.Struct {
+					k := gv.Type().String() + "|" + v.LooseCanon()
+					if o, ok := shared[k]; ok {
+						gv = o
+					} else {
+						shared[k] = gv
+					}
+				}
+				fv.Set(gv)
 			}
 		case FLeafList:
 			l, ok := n.LL[f.Name]
@@ -45,7 +62,7 @@ func buildStruct(n *Node) reflect.Value {
 			fv.Set(s)
 		case FCont:
 			if c, ok := n.Cont[f.Name]; ok {
-				fv.Set(buildStruct(c))
+				fv.Set(buildStruct(c, shared))
 			}
 		case FList:
 			l, ok := n.List[f.Name]
@@ -54,7 +71,7 @@ func buildStruct(n *Node) reflect.Value {
 			}
 			m := reflect.MakeMapWithSize(fv.Type(), len(l))
 			for _, e := range l {
-				m.SetMapIndex(GoKey(f, e.Key), buildStruct(e.N))
+				m.SetMapIndex(GoKey(f, e.Key), buildStruct(e.N, shared))
 			}
 			fv.Set(m)
 		case FOrdList:
@@ -65,7 +82,7 @@ func buildStruct(n *Node) reflect.Value {
 			om := reflect.New(fv.Type().Elem())
 			app := om.MethodByName("Append")
 			for _, e := range l {
-				r := app.Call([]reflect.Value{buildStruct(e.N)})
+				r := app.Call([]reflect.Value{buildStruct(e.N, shared)})
 				if !r[0].IsNil() {
 					panic(fmt.Sprintf("HARNESS-BUG: ordered map Append failed for %s key %s: %v", f.Name, KeyCanon(e.Key), r[0].Interface()))
 				}
@@ -78,7 +95,7 @@ func buildStruct(n *Node) reflect.Value {
 			}
 			s := reflect.MakeSlice(fv.Type(), len(l), len(l))
 			for i, e := range l {
-				s.Index(i).Set(buildStruct(e))
+				s.Index(i).Set(buildStruct(e, shared))
 			}
 			fv.Set(s)
 		}
